@@ -797,7 +797,8 @@ func pastDeadline() bool {
 func (c *checker) historyA(h []Step) []string {
 	run := c.run
 	if pastDeadline() {
-		run.NotExhaustive(fmt.Sprintf("soft deadline reached: history [%s] not run", histString(h)))
+		run.NotExhaustive("soft deadline reached: see histories_skipped_by_deadline / fault_positions_skipped_by_deadline")
+		run.Add("histories_skipped_by_deadline", 1)
 		return nil
 	}
 	run.Add("histories", 1)
@@ -818,7 +819,8 @@ func (c *checker) historyBC(dom domain, h []Step, ops []string, lo, hi int) {
 	run := c.run
 	for k := lo; k < hi; k++ {
 		if pastDeadline() {
-			run.NotExhaustive(fmt.Sprintf("soft deadline reached: fault positions %d..%d of history [%s] not run", k, hi-1, histString(h)))
+			run.NotExhaustive("soft deadline reached: see histories_skipped_by_deadline / fault_positions_skipped_by_deadline")
+			run.Add("fault_positions_skipped_by_deadline", int64(hi-k))
 			return
 		}
 		run.Add("fault_cases", 1)
@@ -833,14 +835,33 @@ func (c *checker) history(dom domain, h []Step) {
 	}
 }
 
+func variantList(vs []variant) string {
+	var s []string
+	for _, v := range vs {
+		s = append(s, v.String())
+	}
+	return strings.Join(s, " | ")
+}
+
 func finishEvidence(run *ev.Run, dom domain) {
 	cov := run.Coverage
+	if caps, ok := cov["caps_hit"].([]string); ok { // one line per distinct reason
+		seen := map[string]bool{}
+		var u []string
+		for _, s := range caps {
+			if !seen[s] {
+				seen[s] = true
+				u = append(u, s)
+			}
+		}
+		cov["caps_hit"] = u
+	}
 	get := func(k string) int64 { v, _ := cov[k].(int64); return v }
 	run.Set("evaluations", get("histories")+get("fault_cases"))
 	run.Set("distinct_nontrivial", get("histories")+get("fault_cases_fired"))
 	run.Set("rule", "Part A: "+dom.desc+"; the set is prefix-closed, so every prefix of every history is checked; each history runs in its own OS process, then fresh processes dump the active side, fail over with fs.TriggerFailover and dump the passive side, and dump it again from one more fresh process. "+
 		"Part B: for every history, every k in [0, number of file operations with a path under the passive folder during the last step of the fault-free reference run): EIO on every passive-folder file operation from the k-th on (sticky) during the last step. "+
-		fmt.Sprintf("Part C: for every such case in which replication was reported off, each variant of %v: ReinstateFailedDrives with faults cleared, follow-up commits (add / updrem on the first store) and an active-side dump in that process, then a fresh process (cold caches) fails over and dumps the passive side, and (quick: only for reinstate_in=fresh; thorough: always) one more fresh process dumps again. ", dom.variants)+
+		fmt.Sprintf("Part C: for every such case in which replication was reported off, each variant of {%s}: ReinstateFailedDrives with faults cleared, follow-up commits (add / updrem on the first store) and an active-side dump in that process, then a fresh process (cold caches) fails over and dumps the passive side, and (quick: only for reinstate_in=fresh; thorough: always) one more fresh process dumps again. ", variantList(dom.variants))+
 		"distinct_nontrivial = histories + fault cases in which the injected fault actually fired (all tuples are distinct by construction).")
 	run.Assumption("sop.TaskRunner tasks run inline in launch order (vhook Inline) so that the file-operation sequence, and with it the fault index k, is deterministic; concurrency between replication tasks is not explored")
 	run.Assumption("L2 cache is the in-memory cache of each process (no Redis): every fresh process starts with a cold cache and reads the replication status from replstat.txt")
